@@ -1,106 +1,9 @@
-import RSocketModel.Engine.Invariants
+import RSocketModel.Proofs.C11Lemmas
 /-!
 # C11 — Connection loss or close fails everything pending, exactly once
 `lost` is the entry point `_on_connection_closed` (reached from EOF, a transport error or `close()`).
 -/
 namespace RSocketModel.Engine
-
-/-- what stopping one registered handler object produces -/
-def stopOuts (o : Option Stream) (oid : Nat) : List Out :=
-  match o with
-  | none => []
-  | some s =>
-    match s.kind with
-    | .rrReq => if s.fut == .pending then [.futError oid cConnectionError] else []
-    | .stReq => if s.subscribed then [.onError oid cConnectionError] else []
-    | .rrResp => if s.fut == .pending then [.hfCancel oid] else []
-    | .stResp => if s.hasPub then [.pubCancel oid] else []
-    | .chReq => (if !s.recvComplete && s.subscribed then [.onError oid cConnectionError] else []) ++
-                (if s.hasPub then [.pubCancel oid] else [])
-    | .chResp => if s.hasPub then [.pubCancel oid] else []
-
-theorem stopOne_outs (st : State) (sid oid : Nat) : (stopOne st sid oid).2 = stopOuts (st.obj oid) oid := by
-  unfold stopOne stopOuts
-  cases st.obj oid with
-  | none => rfl
-  | some s => cases hk : s.kind <;> simp only [hk] <;> (repeat' split) <;> simp_all
-
-theorem stopOne_table (st : State) (sid oid : Nat) : (stopOne st sid oid).1.table = st.table.filter (·.1 != sid) := by
-  unfold stopOne
-  (repeat' split) <;> rfl
-
-theorem stopOne_obj_ne (st : State) (sid oid j : Nat) (h : j ≠ oid) : (stopOne st sid oid).1.obj j = st.obj j := by
-  unfold stopOne
-  (repeat' split) <;> simp [finish_obj, unregister_obj, obj_setObj_ne _ _ _ _ h]
-
-theorem stopOne_closed (st : State) (sid oid : Nat) : (stopOne st sid oid).1.closed = st.closed := by
-  unfold stopOne
-  (repeat' split) <;> rfl
-
-/-- closed form of `stop_all_streams` over a list of entries with distinct object ids -/
-theorem stopAll_outs (l : List (Nat × Nat)) : ∀ (st : State), (l.map (·.2)).Nodup →
-    (stopAll st l).2 = l.flatMap (fun p => stopOuts (st.obj p.2) p.2) := by
-  induction l with
-  | nil => intro st _; rfl
-  | cons p rest ih =>
-    intro st hn
-    obtain ⟨sid, oid⟩ := p
-    simp only [List.map_cons, List.nodup_cons] at hn
-    simp only [stopAll, List.flatMap_cons, stopOne_outs]
-    rw [ih _ hn.2]
-    congr 1
-    have key : ∀ (r : List (Nat × Nat)), (∀ q ∈ r, q.2 ≠ oid) →
-        r.flatMap (fun p => stopOuts ((stopOne st sid oid).1.obj p.2) p.2) = r.flatMap (fun p => stopOuts (st.obj p.2) p.2) := by
-      intro r hr
-      induction r with
-      | nil => rfl
-      | cons q qs ihq =>
-        simp only [List.flatMap_cons]
-        rw [stopOne_obj_ne st sid oid q.2 (hr q (by simp)), ihq (fun x hx => hr x (by simp [hx]))]
-    apply key
-    intro q hq e
-    apply hn.1
-    rw [← e]
-    exact List.mem_map_of_mem hq
-
-theorem stopAll_table (l : List (Nat × Nat)) : ∀ (st : State),
-    (stopAll st l).1.table = st.table.filter (fun p => !(l.map (·.1)).contains p.1) := by
-  induction l with
-  | nil =>
-    intro st
-    simp only [stopAll, List.map_nil, List.contains_nil, Bool.not_false]
-    exact (List.filter_eq_self.mpr (fun _ _ => rfl)).symm
-  | cons p rest ih =>
-    intro st
-    simp only [stopAll, ih, stopOne_table, List.filter_filter, List.map_cons, List.contains_cons]
-    apply List.filter_congr
-    intro q _
-    by_cases hq : q.1 = p.1
-    · simp [hq]
-    · have : ¬ (p.1 = q.1) := fun e => hq e.symm
-      have h1 : (q.1 != p.1) = true := by simp [hq]
-      have h2 : (q.1 == p.1) = false := by simp [hq]
-      simp [h1, h2]
-
-/-- closed form of the `lost` entry point: every registered handler is stopped once, in table
-order, then the close notification is delivered; the table is empty and the endpoint is closed -/
-theorem lost_spec (st : State) (h : WF st) (hc : st.closed = false) :
-    (step st .lost).2 = st.table.flatMap (fun p => stopOuts (st.obj p.2) p.2) ++ [.onClose] ∧
-    (step st .lost).1.table = [] ∧ (step st .lost).1.closed = true := by
-  have ho := stopAll_outs st.table st h.oids_nodup
-  have ht := stopAll_table st.table st
-  refine ⟨?_, ?_, ?_⟩
-  · simp only [step, lostStep, hc, Bool.false_eq_true, if_false, State.emit]
-    rw [ho]
-  · simp only [step, lostStep, hc, Bool.false_eq_true, if_false]
-    rw [ht]
-    apply List.filter_eq_nil_iff.mpr
-    intro p hp
-    have : (st.table.map (·.1)).contains p.1 = true := by
-      rw [List.contains_iff_mem]
-      exact List.mem_map_of_mem hp
-    rw [this]; simp
-  · simp only [step, lostStep, hc, Bool.false_eq_true, if_false]
 
 /-- **every pending request-response is failed with a connection error** -/
 theorem c11_pending_request_response_failed (st : State) (h : WF st) (hc : st.closed = false) (sid oid : Nat) (s : Stream)
@@ -135,34 +38,6 @@ theorem c11_producers_cancelled (st : State) (h : WF st) (hc : st.closed = false
   · intro hk hp
     refine Or.inl ⟨(sid, oid), hreg, ?_⟩
     rcases hk with hk | hk | hk <;> simp [stopOuts, ho, hk, hp]
-
-theorem count_le_one_of_nodup {α : Type} [DecidableEq α] (l : List α) (h : l.Nodup) (x : α) : l.count x ≤ 1 := by
-  induction l with
-  | nil => simp
-  | cons y ys ih =>
-    simp only [List.nodup_cons] at h
-    by_cases hxy : y = x
-    · subst hxy
-      have : ys.count y = 0 := List.count_eq_zero.mpr h.1
-      simp [List.count_cons, this]
-    · have := ih h.2
-      simp [List.count_cons, hxy]; exact this
-
-theorem stopOuts_nodup (o : Option Stream) (oid : Nat) : (stopOuts o oid).Nodup := by
-  unfold stopOuts
-  cases o with
-  | none => simp
-  | some s => cases s.kind <;> simp only <;> (repeat' split) <;> simp
-
-/-- what stopping the handler with object id `q` can emit: only signals addressed to `q` -/
-theorem stopOuts_mentions (o : Option Stream) (q : Nat) (x : Out) (hx : x ∈ stopOuts o q) :
-    x = .futError q cConnectionError ∨ x = .onError q cConnectionError ∨ x = .hfCancel q ∨ x = .pubCancel q := by
-  unfold stopOuts at hx
-  cases o with
-  | none => simp at hx
-  | some s =>
-    cases s.kind <;> simp only at hx <;> (repeat' split at hx) <;> (try simp at hx) <;>
-      (first | (rcases hx with rfl | rfl <;> simp) | (subst hx; simp))
 
 /-- **exactly once**: no application object receives the same loss signal twice -/
 theorem c11_each_signal_once (st : State) (h : WF st) (hc : st.closed = false) (oid : Nat) (x : Out)
@@ -205,68 +80,6 @@ theorem c11_each_signal_once (st : State) (h : WF st) (hc : st.closed = false) (
       exact count_le_one_of_nodup _ (stopOuts_nodup _ _) _
     · rw [hmention p hp, Nat.zero_add]
       exact ih hnd.2
-
-@[simp] theorem closed_setObj (st : State) (oid : Nat) (s : Stream) : (st.setObj oid s).closed = st.closed := rfl
-@[simp] theorem closed_finish (st : State) (sid : Nat) : (st.finish sid).closed = st.closed := rfl
-@[simp] theorem closed_register (st : State) (s : Stream) : (st.register s).1.closed = st.closed := rfl
-@[simp] theorem closed_markChannel (st : State) (oid : Nat) (s : Stream) (r t : Bool) : (markChannel st oid s r t).closed = st.closed := by
-  simp only [markChannel]; split <;> rfl
-@[simp] theorem closed_allocate (st : State) : (allocate st).2.closed = st.closed := rfl
-
-theorem stopAll_closed (l : List (Nat × Nat)) : ∀ st : State, (stopAll st l).1.closed = st.closed := by
-  induction l with
-  | nil => intro st; rfl
-  | cons p rest ih => intro st; simp only [stopAll, ih, stopOne_closed]
-
-theorem stopAll_no_close (l : List (Nat × Nat)) : ∀ st : State, Out.onClose ∉ (stopAll st l).2 := by
-  induction l with
-  | nil => intro st; simp [stopAll]
-  | cons p rest ih =>
-    intro st hm
-    simp only [stopAll, List.mem_append, stopOne_outs] at hm
-    rcases hm with hm | hm
-    · have := stopOuts_mentions _ _ _ hm
-      rcases this with h | h | h | h <;> simp at h
-    · exact ih _ hm
-
-theorem apiStep_closed (st : State) (ev : Ev) : (apiStep st ev).1.closed = st.closed ∧ Out.onClose ∉ (apiStep st ev).2 := by
-  cases ev <;> simp only [apiStep]
-  case requestResponse data =>
-    rcases hal : allocate st with ⟨o, st1⟩
-    have := closed_allocate st; rw [hal] at this
-    cases o <;> simp_all
-  case fireAndForget data =>
-    rcases hal : allocate st with ⟨o, st1⟩
-    have := closed_allocate st; rw [hal] at this
-    cases o <;> simp_all
-  case requestStream data n sub =>
-    rcases hal : allocate st with ⟨o, st1⟩
-    have := closed_allocate st; rw [hal] at this
-    cases o <;> simp only <;> (repeat' split) <;> simp_all
-  case requestChannel data n hp sub =>
-    rcases hal : allocate st with ⟨o, st1⟩
-    have := closed_allocate st; rw [hal] at this
-    cases o <;> simp only <;> (repeat' split) <;> simp_all
-  all_goals ((repeat' split) <;> simp_all)
-
-/-- a closed endpoint stays closed and never delivers the close notification again -/
-theorem closed_stays (st : State) (hc : st.closed = true) (ev : Ev) :
-    (step st ev).2.count .onClose = 0 ∧ (step st ev).1.closed = true := by
-  have hcount : ∀ l : List Out, Out.onClose ∉ l → (st.emit l).count .onClose = 0 := by
-    intro l hl
-    apply List.count_eq_zero.mpr
-    intro hm
-    simp only [State.emit, hc, if_true, List.mem_filter] at hm
-    exact hl hm.1
-  cases ev with
-  | recv f b => simp [step, recvStep, hc, State.emit]
-  | lost => simp [step, lostStep, hc, State.emit]
-  | stopStreams =>
-    simp only [step, stopStreamsStep]
-    exact ⟨hcount _ (stopAll_no_close _ _), by rw [stopAll_closed]; exact hc⟩
-  | _ =>
-    simp only [step]
-    exact ⟨hcount _ (apiStep_closed st _).2, by rw [(apiStep_closed st _).1]; exact hc⟩
 
 /-- **the close notification is delivered exactly once per endpoint**: the `lost` entry point
 delivers it once and only when the endpoint is not yet closed; no other entry point delivers it;
